@@ -1,4 +1,7 @@
----- MODULE DebugTrace ----
+---- MODULE InterpTraceDebug ----
+(* Diagnosis of a rejected recording: the same machine as InterpTrace, with an invariant that prints the first snapshot (or the     *)
+(* final outcome) on which machine and recording disagree.                                                                          *)
+(*   TRACE=<one-line ndjson> bin/tlcx -workers 1 -config spec/InterpTraceDebug.cfg spec/InterpTraceDebug.tla | grep -A80 MISMATCH  *)
 EXTENDS InterpTrace
 Follow ==
   IF l > Len(Rec) THEN TRUE
